@@ -68,6 +68,45 @@ def const_int(text, pattern, what):
     return val
 
 
+def enum_variants(text, name):
+    m = re.search(r"pub enum %s \{(.*?)\n\}" % name, text, re.S)
+    if not m:
+        raise core.InfraError("translator: enum %s not found" % name)
+    body = re.sub(r"//[^\n]*", "", m.group(1))
+    return [v.strip() for v in body.split(",") if v.strip()]
+
+
+def keyword_table(text, fn_name, enum_name, variants):
+    """the `b"keyword" => Ok(Enum::Variant)` arms of a conversion function, as (keyword bytes, discriminant)"""
+    m = re.search(r"fn %s\(.*?\{\s*match \w+ \{(.*?)\n        _ =>" % fn_name, text, re.S)
+    if not m:
+        raise core.InfraError("translator: %s not found" % fn_name)
+    out = []
+    for kw, var in re.findall(r'b"([^"]+)" => Ok\(%s::(\w+)\)' % enum_name, m.group(1)):
+        if var not in variants:
+            raise core.InfraError("translator: %s::%s is not a variant" % (enum_name, var))
+        out.append((kw.encode(), variants.index(var)))
+    if not out:
+        raise core.InfraError("translator: no arms in %s" % fn_name)
+    return out
+
+
+def byte_const(text, name):
+    m = re.search(r'pub const %s: &\[u8; \d+\] = b"((?:[^"\\]|\\.)*)";' % name, text)
+    if not m:
+        raise core.InfraError("translator: %s not found" % name)
+    raw = m.group(1)
+    out, i = [], 0
+    while i < len(raw):
+        if raw[i] == "\\" and raw[i + 1] == "x":
+            out.append(int(raw[i + 2:i + 4], 16)); i += 4
+        elif raw[i] == "\\" and raw[i + 1] == "n":
+            out.append(10); i += 2
+        else:
+            out.append(ord(raw[i])); i += 1
+    return out
+
+
 def render_consts():
     wavemem = _read("wavemem.rs")
     signals = _read("signals.rs")
@@ -95,6 +134,24 @@ def render_consts():
     def nl(l):
         return "[" + "; ".join(str(x) for x in l) + "]"
     pairs = "; ".join("(%d, %d)" % p for p in table)
+    hier = _read("hierarchy.rs")
+    ghwc = _read("ghw/common.rs")
+    scope_tab = keyword_table(vcd, "convert_scope_tpe", "ScopeType", enum_variants(hier, "ScopeType"))
+    var_tab = keyword_table(vcd, "convert_var_tpe", "VarType", enum_variants(hier, "VarType"))
+    m = re.search(r"pub const STD_LOGIC_LUT: \[u8; 9\] = \[([\d, ]+)\];", ghwc)
+    if not m:
+        raise core.InfraError("translator: STD_LOGIC_LUT not found")
+    lut = [int(x) for x in m.group(1).split(",")]
+    marks = [(n, byte_const(ghwc, "GHW_%s_SECTION" % n)) for n in ("SNAPSHOT", "END_SNAPSHOT", "CYCLE", "END_CYCLE", "DIRECTORY", "END_DIRECTORY", "TAILER")]
+
+    def kwt(tab):
+        return "[ " + ";\n    ".join("(%s, %d)" % (nl(list(k)), c) for k, c in tab) + " ]"
+    extra = "\n(* wellen/src/vcd.rs convert_scope_tpe / convert_var_tpe: keyword -> discriminant of ScopeType / VarType (hierarchy.rs) *)\n"
+    extra += "Definition scope_kw_src : list (list N * N) :=\n  %s.\n" % kwt(scope_tab)
+    extra += "Definition var_kw_src : list (list N * N) :=\n  %s.\n" % kwt(var_tab)
+    extra += "\n(* wellen/src/ghw/common.rs *)\nDefinition ghw_std_logic_lut : list N := %s.\n" % nl(lut)
+    for n, b in marks:
+        extra += "Definition ghw_%s_section : list N := %s.\n" % (n.lower(), nl(b))
     return """(* GENERATED by /verif/vlib/translate.py from /repo's current source - do not edit.
    (this committed copy is the snapshot used when the translator degrades) *)
 From Coq Require Import List NArith.
@@ -120,7 +177,7 @@ Definition skip_compression : bool := %s.
 Definition min_chunk_size : N := %d.
 Definition id_char_min : N := %d.
 Definition id_char_max : N := %d.
-""" % (pairs, nl(two), nl(four), nl(nine), bt_max, min_size, len_div, skip, min_chunk, ord(m1.group(1)), ord(m2.group(1)))
+""" % (pairs, nl(two), nl(four), nl(nine), bt_max, min_size, len_div, skip, min_chunk, ord(m1.group(1)), ord(m2.group(1))) + extra
 
 
 # ------------------------------------------------------------------ serde schema
